@@ -32,7 +32,7 @@ def gen_cases(seed, tier):
     cases = []
     for i in range(n):
         spec = gen.random_spec(rng, smin=3, smax=40, avg="unichain")
-        eps = float(spec["scale"] * 10.0 ** rng.uniform(-6, -1))
+        eps = float(spec["scale"] * 10.0 ** rng.uniform(-9, -1))
         chunks = [int(x) for x in rng.integers(1, 16, size=40)] if rng.random() < 0.5 else None
         cases.append(dict(kind="gen", spec=spec, epsilon=eps, eps_rel=eps / spec["scale"], chunks=chunks,
                           max_batch_size=common.batch_choices(rng, spec["S"]), devices=int(rng.choice(devs)),
@@ -101,7 +101,7 @@ def run_case(case):
     def judge(res):
         v = target.np_values(res.values)
         gain = float(np.asarray(res.info.gain))
-        slack = 1e-9 * (1 + abs(g1) + scale + float(np.abs(v).max()))
+        slack = 1e-11 * (abs(g1) + scale + float(np.abs(v).max()))   # relative: epsilon goes down to 1e-9*scale
         fails = []
         if not abs(gain - g1) <= eps + slack:
             fails.append(f"|reported gain {gain:.9g} - g* {g1:.9g}| = {abs(gain - g1):.4g} > eps {eps:.4g}")
